@@ -3,7 +3,8 @@ EXTENDS InputModel, Json, IOUtils, SequencesExt
 AllDefaults == {"nodefault", "int", "float", "float_int", "string", "string_quotes", "bool", "null", "enum", "enum_keyword",
                 "id_int", "id_string", "list", "empty_list", "nested_list", "list_null_item", "object", "object_enum",
                 "object_list", "object_object", "list_of_objects", "custom_scalar",
-                "object_null_entry", "list_of_objects_null_entry", "object_nested_default"}
+                "object_null_entry", "list_of_objects_null_entry", "object_nested_default",
+                "object_enum_keyword", "list_of_objects_enum_keyword"}
 AllNames == {"plain", "camel", "keyword", "reserved", "under"}
 NoDev == {}
 CaseSeq == SetToSeq({x \in Fields : ValidField(x)})
